@@ -67,7 +67,7 @@ fn run_plan<F: SimFilesystem>(
     snapshot: &dyn Fn() -> BTreeMap<String, Vec<u8>>,
 ) -> Vec<StepObs> {
     let cfg = &plan.cfg;
-    let clock = SimClock(Arc::new(Mutex::new(plan.start)));
+    let clock = SimClock::with_read_cost(plan.start, plan.read_cost);
     let rng = if constant_rng {
         PlanRng::Constant
     } else {
